@@ -78,9 +78,8 @@ theorem walk_layout_mixed_x86_partial (os : Os) (w : World) (wins : List (List W
   simp only [PreW, Bool.and_eq_true, beq_iff_eq, Bool.or_eq_true] at hpre
   obtain ⟨⟨⟨⟨⟨⟨⟨hm, _⟩, hip⟩, hsp⟩, h64⟩, hwf⟩, _⟩, hp⟩ := hpre
   have hwf : ∀ r ∈ x86Regs, ctx.raw .x86 r ≤ U32MAX := by
-    rcases hwf with h | h
-    · simp at h
-    · simpa [List.all_eq_true] using h
+    have h : (Arch.x86.registers.all fun r => decide (ctx.raw .x86 r ≤ U32MAX)) = true := hwf
+    exact fun r hr => of_decide_eq_true (List.all_eq_true.mp h r hr)
   have h64' : ctx.m64 = false := by
     have : (Arch.x86 == Arch.mips64) = false := rfl
     rw [h64]; exact this
